@@ -1,4 +1,5 @@
 import Driver.Codec
+import Driver.Ops.Filter
 /-! op `run`: settings + journal AST (+ wanted outputs) ⇒ load status and outputs.
     Outputs are looked up in a table passed by `Main` (one entry per output kind). -/
 open Lean Tackler Codec
@@ -28,8 +29,12 @@ def opRun (table : List (String × OutputFn)) (j : Json) : R Json := do
   match loadJournal st rs with
   | .err => pure (Json.mkObj [("r", "ERR")])
   | .undef => pure (Json.mkObj [("r", "UNDEF")])
-  | .ok (ts, st') =>
-    pure (Json.mkObj [("r", "OK"), ("n", .num (JsonNumber.fromNat ts.length)),
+  | .ok (ts0, st') =>
+    -- optional transaction filter (`TxnData::filter`): outputs are computed from the selected set
+    let ts ← match optField j "mfilter" with
+      | some f => do pure (filterTxns simpleMatch (← filterOfJson f) ts0)
+      | none => pure ts0
+    pure (Json.mkObj [("r", "OK"), ("n", .num (JsonNumber.fromNat ts0.length)), ("selected", .num (JsonNumber.fromNat ts.length)),
       ("out", Json.mkObj (want.map (fun w => (w, runOutput table j st' ts w))))])
 
 end Ops
